@@ -1064,6 +1064,7 @@ func (s *c41Sys) Key() string {
 	}
 	if s.last != "" {
 		s.r.Outcome(s.last)
+		s.r.Outcome("transitions-in-scenario:" + s.sc.name)
 		for _, e := range s.effects {
 			s.r.Outcome(e)
 		}
@@ -1089,7 +1090,7 @@ func c41Scenarios() []*c41Scenario {
 	return []*c41Scenario{
 		{
 			// reproducers of the two recorded behaviours (see c41Key*), tiny on purpose
-			name: "finding-acctqueue", cfg: c41Cfg(2, 4, 1, 3), depthQ: 2, depthT: 3,
+			name: "finding-acctqueue", cfg: c41Cfg(2, 4, 1, 3), depthQ: 2, depthT: 4,
 			ops: []string{"batch:A0+A1x+A2+A3", "bal:A:low", "bal:A:high", "add:A1"},
 		},
 		{
@@ -1098,30 +1099,29 @@ func c41Scenarios() []*c41Scenario {
 		},
 		{
 			// replacement rules in pending and queue, tip raises, inclusion of a different variant, reorg re-injection
-			name: "replace", cfg: c41Cfg(2, 3, 2, 3), depthQ: 4, depthT: 6,
-			ops: []string{"add:A0", "add:A0u", "add:A0b", "add:A0d", "add:A1", "add:A1b", "add:A2", "add:A2d", "add:B0", "add:B0b", "add:B1",
-				"tip:105", "tip:1", "inc:A", "inc:B", "revert"},
+			name: "replace", cfg: c41Cfg(2, 3, 2, 3), depthQ: 4, depthT: 5,
+			ops: []string{"add:A0", "add:A0u", "add:A0b", "add:A0d", "add:A1", "add:A1b", "add:A2", "add:B0", "add:B0b",
+				"tip:105", "inc:A", "inc:B", "revert"},
 		},
 		{
 			// tiny limits: per-account and global truncation, eviction of the cheapest when full, future-vs-pending rule
-			name: "limits", cfg: c41Cfg(1, 2, 1, 2), depthQ: 4, depthT: 6,
+			name: "limits", cfg: c41Cfg(1, 2, 2, 2), depthQ: 4, depthT: 5,
 			init: []string{"batch:A0+A1"},
-			ops: []string{"add:A2", "add:A3", "add:B0", "add:B1", "add:B2", "add:B1b", "add:C0", "add:C1", "add:C0b", "batch:B0+B1+B2", "batch:A2+A3+C0",
-				"inc:A", "inc:B", "revert", "fee:0", "fee:115"},
+			ops: []string{"add:A2", "add:A3", "add:B0", "add:B1", "add:B2", "add:B1b", "add:C0", "add:C1", "batch:B0+B1+B2",
+				"inc:A", "inc:B", "revert", "fee:115"},
 		},
 		{
 			// balances: unaffordable transactions in pending and queue, demotion of followers, costly replacements
-			name: "funds", cfg: c41Cfg(2, 4, 2, 3), depthQ: 4, depthT: 6,
-			ops: []string{"add:A0", "add:A1", "add:A1x", "add:A2", "add:A3", "add:B0x", "add:B1", "add:B0",
-				"bal:A:low", "bal:A:high", "bal:A:zero", "bal:B:low", "bal:B:high", "inc:A", "revert"},
+			name: "funds", cfg: c41Cfg(2, 4, 2, 3), depthQ: 4, depthT: 5,
+			ops: []string{"add:A0", "add:A1", "add:A1x", "add:A2", "add:B0x", "add:B1", "add:B0",
+				"bal:A:low", "bal:A:high", "bal:A:zero", "bal:B:low", "inc:A", "revert"},
 		},
 		{
 			// everything together, shallower
 			name: "mixed", cfg: c41Cfg(2, 3, 2, 3), depthQ: 3, depthT: 4,
-			ops: []string{"add:A0", "add:A0u", "add:A0b", "add:A0x", "add:A0d", "add:A1", "add:A1b", "add:A1x", "add:A2", "add:A3",
-				"add:B0", "add:B0b", "add:B1", "add:B1x", "add:B2", "add:C0", "add:C0b", "add:C1", "add:C2",
-				"batch:A0+A1+A2+A3", "batch:B2+B1+B0",
-				"bal:A:low", "bal:A:high", "bal:B:low", "bal:B:high", "tip:105", "tip:1", "fee:0", "fee:115",
+			ops: []string{"add:A0", "add:A0b", "add:A0x", "add:A0d", "add:A1", "add:A1b", "add:A2",
+				"add:B0", "add:B0b", "add:B1", "add:B2", "add:C0", "add:C1",
+				"batch:A0+A1+A2+A3", "bal:A:low", "bal:A:high", "bal:B:low", "tip:105", "tip:1", "fee:115",
 				"inc:A", "inc:B", "inc:C", "revert"},
 		},
 	}
